@@ -350,3 +350,119 @@ theorem complete_unint (c : Cfg) (f : Nat) (o : EFut) (fn wf : Nat) (aw) (h : QS
   split
   · split <;> rfl
   · rfl
+
+def setCtx (c : Cfg) (X : List (Nat × Val)) : Cfg := { c with ctx := X }
+
+theorem unint_setCtx (c : Cfg) (X : List (Nat × Val)) : unint (setCtx c X) = setCtx (unint c) X := by
+  cases c
+  rename_i st _ _ _ _ _ _ _ _ _ _ _ _ _ _ _ _ _ _ _ _ _ _ _ _
+  cases st <;> try rfl
+  simp only [unint, setCtx]
+  split <;> rfl
+
+theorem unint_fields (c : Cfg) : (unint c).efs = c.efs ∧ (unint c).efKeys = c.efKeys ∧ (unint c).ctx = c.ctx ∧
+    (unint c).ready = c.ready := by
+  cases c
+  rename_i st _ _ _ _ _ _ _ _ _ _ _ _ _ _ _ _ _ _ _ _ _ _ _ _
+  cases st <;> try exact ⟨rfl, rfl, rfl, rfl⟩
+  simp only [unint]
+  split <;> exact ⟨rfl, rfl, rfl, rfl⟩
+
+theorem onOld_eq (c : Cfg) (f : Nat) : onOld c f =
+    match c.efKeys.find? (·.1 = f), c.efs[f]? with
+    | some (_, key), some (EFut.result v) => setCtx c ((key, v) :: c.ctx.filter (·.1 ≠ key))
+    | _, _ => c := rfl
+
+theorem onOld_unint (c : Cfg) (f : Nat) : onOld (unint c) f = unint (onOld c f) := by
+  obtain ⟨g1, g2, g3, _⟩ := unint_fields c
+  rw [onOld_eq, onOld_eq, g1, g2, g3]
+  split
+  · exact (unint_setCtx c _).symm
+  · rfl
+
+theorem onOld_qshape (c : Cfg) (f : Nat) (fn wf : Nat) (aw) (h : QShape c fn wf aw) : QShape (onOld c f) fn wf aw := by
+  obtain ⟨wk, k, hst, hw, hpc, hp, hi⟩ := h
+  unfold onOld
+  split
+  · exact ⟨wk, k, hst, hw, hpc, hp, hi⟩
+  · exact ⟨wk, k, hst, hw, hpc, hp, hi⟩
+
+theorem awaitableDone_unint (c : Cfg) (f : Nat) (fn wf : Nat) (aw) (h : QShape c fn wf aw) :
+    awaitableDone (unint c) f = unint (awaitableDone c f) := by
+  have h0 := h
+  obtain ⟨wk, k, hst, hw, hpc, hp, hi⟩ := h0
+  have hu := unint_int c fn wf wk aw k hst hw
+  have hst' : (unint c).st = .waiting fn wf none aw := by rw [hu]
+  have hefs : (unint c).efs = c.efs := by rw [hu]
+  have hctx : (unint c).ctx = c.ctx := by rw [hu]
+  cases hf : aw.find? (·.1 = f) with
+  | none =>
+    rw [aD_waiting_none c f fn wf wk aw hst hf, aD_waiting_none (unint c) f fn wf none aw hst' hf]
+    exact onOld_unint c f
+  | some xk =>
+    obtain ⟨x, key⟩ := xk
+    have other : (∀ v, c.efs[f]? ≠ some (.result v)) → (∀ e, c.efs[f]? ≠ some (.exc e)) →
+        awaitableDone (unint c) f = unint (awaitableDone c f) := by
+      intro n1 n2
+      rw [aD_some_other c f fn wf wk aw x key hst hf n1 n2,
+        aD_some_other (unint c) f fn wf none aw x key hst' hf (by rw [hefs]; exact n1) (by rw [hefs]; exact n2)]
+      rw [hu, unint_int { c with st := .waiting fn wf wk (aw.filter (·.1 ≠ f)) } fn wf wk _ k rfl hw]
+    cases he : c.efs[f]? with
+    | none => exact other (by rw [he]; intro v hv; cases hv) (by rw [he]; intro v hv; cases hv)
+    | some o =>
+      cases o with
+      | pending => exact other (by rw [he]; intro v hv; cases hv) (by rw [he]; intro v hv; cases hv)
+      | result v =>
+        rw [aD_some_result c f fn wf wk aw x key v hst hf he,
+          aD_some_result (unint c) f fn wf none aw x key v hst' hf (by rw [hefs, he]), hctx]
+        have e : ({ unint c with st := .waiting fn wf none (aw.filter (·.1 ≠ f)), ctx := (key, v) :: c.ctx.filter (·.1 ≠ key) } : Cfg)
+            = unint { c with st := .waiting fn wf wk (aw.filter (·.1 ≠ f)), ctx := (key, v) :: c.ctx.filter (·.1 ≠ key) } := by
+          rw [hu, unint_int { c with st := .waiting fn wf wk (aw.filter (·.1 ≠ f)), ctx := (key, v) :: c.ctx.filter (·.1 ≠ key) }
+            fn wf wk _ k rfl hw]
+        split
+        · rw [e]
+          exact deliver_unint { c with st := .waiting fn wf wk (aw.filter (·.1 ≠ f)), ctx := (key, v) :: c.ctx.filter (·.1 ≠ key) }
+            _ fn wf wk _ k rfl hw hp
+        · exact e
+      | exc e =>
+        rw [aD_some_exc c f fn wf wk aw x key e hst hf he,
+          aD_some_exc (unint c) f fn wf none aw x key e hst' hf (by rw [hefs, he])]
+        have e' : ({ unint c with st := .waiting fn wf none (aw.filter (·.1 ≠ f)) } : Cfg)
+            = unint { c with st := .waiting fn wf wk (aw.filter (·.1 ≠ f)) } := by
+          rw [hu, unint_int { c with st := .waiting fn wf wk (aw.filter (·.1 ≠ f)) } fn wf wk _ k rfl hw]
+        rw [e']
+        exact deliver_unint { c with st := .waiting fn wf wk (aw.filter (·.1 ≠ f)) } _ fn wf wk _ k rfl hw hp
+
+theorem awaitableDone_qshape (c : Cfg) (f : Nat) (fn wf : Nat) (aw) (h : QShape c fn wf aw) :
+    ∃ aw', QShape (awaitableDone c f) fn wf aw' := by
+  have h0 := h
+  obtain ⟨wk, k, hst, hw, hpc, hp, hi⟩ := h0
+  cases hf : aw.find? (·.1 = f) with
+  | none =>
+    rw [aD_waiting_none c f fn wf wk aw hst hf]
+    exact ⟨aw, onOld_qshape c f fn wf aw h⟩
+  | some xk =>
+    obtain ⟨x, key⟩ := xk
+    have sh1 : ∀ (aw' : List (Nat × Nat)) (X : List (Nat × Val)),
+        QShape { c with st := .waiting fn wf wk aw', ctx := X } fn wf aw' :=
+      fun aw' X => ⟨wk, k, rfl, hw, hpc, hp, hi⟩
+    have sh2 : ∀ (aw' : List (Nat × Nat)), QShape { c with st := .waiting fn wf wk aw' } fn wf aw' :=
+      fun aw' => ⟨wk, k, rfl, hw, hpc, hp, hi⟩
+    have other : (∀ v, c.efs[f]? ≠ some (.result v)) → (∀ e, c.efs[f]? ≠ some (.exc e)) →
+        ∃ aw', QShape (awaitableDone c f) fn wf aw' := by
+      intro n1 n2
+      rw [aD_some_other c f fn wf wk aw x key hst hf n1 n2]
+      exact ⟨_, sh2 _⟩
+    cases he : c.efs[f]? with
+    | none => exact other (by rw [he]; intro v hv; cases hv) (by rw [he]; intro v hv; cases hv)
+    | some o =>
+      cases o with
+      | pending => exact other (by rw [he]; intro v hv; cases hv) (by rw [he]; intro v hv; cases hv)
+      | result v =>
+        rw [aD_some_result c f fn wf wk aw x key v hst hf he]
+        split
+        · exact ⟨_, deliver_qshape _ _ fn wf _ ⟨(by intro x; cases x), (by intro k x; cases x)⟩ (sh1 _ _)⟩
+        · exact ⟨_, sh1 _ _⟩
+      | exc e =>
+        rw [aD_some_exc c f fn wf wk aw x key e hst hf he]
+        exact ⟨_, deliver_qshape _ _ fn wf _ ⟨(by intro x; cases x), (by intro k x; cases x)⟩ (sh2 _)⟩
